@@ -1290,6 +1290,92 @@ def check_eq_snapshot(part: Part, gen, name: str, k: int, seq: str, vtypes):
     part.mark_nontrivial(("eqsnap", name, k, seq))
 
 
+# ---- cold-process histories: the FIRST message of a type this process converts must not decide how later ones are converted ----
+COLD_OP1 = ["serialize(small)", "deserialize(dict small)"]
+COLD_OP2 = ["serialize(full)", "deserialize(xml full)", "deserialize(dict full)"]
+
+
+def _in_cold_child(fn):
+    """Runs fn() in a forked child of this worker and returns its (picklable) result or ("exc", text).  The caller guarantees that the
+    forking process has never converted a message of the template concerned, so module- / class-level state about it is still cold."""
+    import pickle
+    r, w = os.pipe()
+    pid = os.fork()
+    if pid == 0:
+        try:
+            os.close(r)
+            try:
+                out = ("ok", fn())
+            except Exception as e:  # reported by the parent
+                out = ("exc", f"{type(e).__name__}: {str(e)[:200]}")
+            with os.fdopen(w, "wb") as f:
+                pickle.dump(out, f, protocol=4)
+        finally:
+            os._exit(0)
+    os.close(w)
+    with os.fdopen(r, "rb") as f:
+        data = f.read()
+    os.waitpid(pid, 0)
+    if not data:
+        return ("exc", "cold child died without a result")
+    return pickle.loads(data)
+
+
+def check_history_cold(part: Part, gen, name: str, vtypes, only=None):
+    """Must run before anything else converts a message of template `name` in this process.  Child R (cold) converts only m_full;
+    child S (cold) only produces m_small's dict form; child T(small, op1) (cold) applies op1 to m_small first and then every op2 to
+    m_full.  T's op2 results must equal R's: what the first-seen message of a type looked like must not change later conversions."""
+    pairs = list(history_pairs(gen, name))
+    if not pairs:
+        return
+    full = pairs[0][1]
+
+    def ref_child():
+        inputs = {"full_dict": LLSDMessageSerializer().serialize(gen.lib_message(full), as_dict=True),
+                  "full_xml": LLSDMessageSerializer().serialize(gen.lib_message(full))}
+        res = {op: _hist_apply(LLSDMessageSerializer(), op, gen, None, full, inputs) for op in COLD_OP2}
+        return inputs, res
+
+    st, val = _in_cold_child(ref_child)
+    if st != "ok":
+        part.count("hist_skipped_fresh_instance_fails")
+        return
+    inputs, refs = val
+    for small, _ in pairs:
+        if only is not None and small["tag"] != only[0]:
+            continue
+        st, small_dict = _in_cold_child(lambda: LLSDMessageSerializer().serialize(gen.lib_message(small), as_dict=True))
+        if st != "ok":
+            part.count("hist_skipped_fresh_instance_fails")
+            continue
+        inp = dict(inputs, small_dict=small_dict)
+        for op1 in COLD_OP1:
+            if only is not None and op1 != only[1]:
+                continue
+            witness = {"family": "hist-cold", "seed": gen.seed, "small": small, "full": full, "ops": [op1]}
+            part.count("evaluations")
+            part.count("hist_cold_evaluations")
+
+            def test_child():
+                ser = LLSDMessageSerializer()
+                _hist_apply(ser, op1, gen, small, full, inp)
+                return {op: _hist_apply(LLSDMessageSerializer(), op, gen, small, full, inp) for op in COLD_OP2}
+
+            st, got = _in_cold_child(test_child)
+            if st != "ok":
+                part.violation("msg-llsd-history-independent", f"LLSDMessageSerializer:cold:{op1}-first:raises", witness,
+                               f"{name} ({small['tag']}): in a process whose first {name} conversion is {op1}, converting the full message raised {got}; "
+                               f"a process that converts the full message first succeeds")
+                continue
+            for op2 in COLD_OP2:
+                if got[op2] != refs[op2]:
+                    for wh in _hist_where(refs[op2], got[op2], vtypes):
+                        part.violation("msg-llsd-history-independent", f"LLSDMessageSerializer:cold:{op1}-first-then-{op2}:{wh}", witness,
+                                       f"{name} ({small['tag']}): in a process whose first {name} conversion is {op1}, {op2} differs from a process "
+                                       f"that converts the full message first: {_first_diff(refs[op2][1], got[op2][1])}")
+            part.mark_nontrivial(("hist-cold", name, small["tag"], op1))
+
+
 def check_history(part: Part, gen, name: str, vtypes):
     for small, full in history_pairs(gen, name):
         try:
@@ -1346,6 +1432,7 @@ def _work(unit):
         de_udp = UDPMessageDeserializer()
         for name in unit[1]:
             vtypes = _var_types(name)
+            check_history_cold(part, gen, name, vtypes)  # first: this process has not converted a message of this type yet
             n = 0
             for c in value_rows(gen, name):
                 check_msg_case(part, gen, c, LLSDMessageSerializer(), vtypes, de_udp)
@@ -1424,7 +1511,9 @@ def run(run: Run):
         "EventQueueManager.inject_message (fresh serializer / manager per case); hist: for every template with >= 2 blocks or a Variable "
         "block, every (m_small, m_full) pair (trailing-block omissions, counts 0, one Variable block left out) x all 25 ordered pairs of "
         "{serialize small/full, deserialize dict small/full, deserialize xml full} on one serializer instance vs a fresh instance per "
-        "operation, + 4 ordered pairs of inject_message on one EventQueueManager; eqsnap: every template x every start row x every {inject, rewrite-in-place} sequence starting with "
+        "operation, + 4 ordered pairs of inject_message on one EventQueueManager; hist-cold: the same (m_small, m_full) pairs in forked children "
+        "of a worker that has never converted the template: {serialize, deserialize dict} of m_small as the process's FIRST conversion of that type, then "
+        "{serialize, deserialize xml, deserialize dict} of m_full, against a child that converts m_full first (module-/class-level per-template state); eqsnap: every template x every start row x every {inject, rewrite-in-place} sequence starting with "
         "inject of length <= %d on one EventQueueManager; tree: all %d LLSD trees (incl. the 2^7-1 presence/absence combinations of apostrophe, double quote, backslash, LF, CR, NUL, non-ASCII x 3 orders as string leaves, "
         "each alone and each-choice in arrays/maps) of depth <= %d over %d base leaves / containers {array,map} of size 0..2 "
         "(each-choice sibling pairs%s; %d map keys cycled) x %d codecs x %d process time zones; real: %d F32/F64 bit patterns (every exponent x mantissa "
@@ -1465,6 +1554,13 @@ def _replay_child(w):
         _set_tz("UTC")
         gen = make_gen(int(w.get("seed", 0)))
         check_eq_snapshot(part, gen, w["name"], int(w["row"]), w["seq"], _var_types(w["name"]))
+    elif fam == "hist-cold":
+        _set_tz("UTC")
+        gen = make_gen(int(w.get("seed", 0)))
+        for k in ("small", "full"):
+            w[k]["acks"] = tuple(w[k]["acks"])
+            w[k]["blocks"] = [(b, rows) for b, rows in w[k]["blocks"]]
+        check_history_cold(part, gen, w["full"]["name"], _var_types(w["full"]["name"]), only=(w["small"]["tag"], w["ops"][0]))
     elif fam == "hist":
         _set_tz("UTC")
         gen = make_gen(int(w.get("seed", 0)))
